@@ -206,15 +206,23 @@ Definition exported_fn (q : string) : bool :=
                          && match String.index 0 "." q with None => true | Some _ => false end
   | String.EmptyString => false
   end.
-Definition entry_points : list string := filter exported_fn all_fns.
+(* ... and the package's init functions: they run unlocked, and they are where the encoder
+   routines, which are otherwise only called through function values, are mentioned *)
+Definition entry_points : list string := filter (fun q => exported_fn q || String.prefix "init@" q) all_fns.
 (* one edge of the syntactic call graph, cut at createStructDesc *)
 Definition edge (p q : string) : bool :=
   negb (String.eqb p "createStructDesc") && existsb (has_base q) (callees_of p calls).
 Definition reach_step (u : list string) : list string :=
   u ++ filter (fun q => negb (str_in q u) && existsb (fun p => edge p q) u) all_fns.
-Fixpoint iter {A : Type} (n : nat) (f : A -> A) (x : A) : A :=
-  match n with O => x | S k => iter k f (f x) end.
-Definition unlocked_fns : list string := iter (List.length all_fns) reach_step entry_points.
+(* iterate until nothing is added (at most once per function); that the result is a fixed point
+   is not assumed but checked (closed_under below) *)
+Fixpoint reach_fix (n : nat) (u : list string) : list string :=
+  match n with
+  | O => u
+  | S k => let u' := reach_step u in
+           if Nat.eqb (List.length u') (List.length u) then u else reach_fix k u'
+  end.
+Definition unlocked_fns : list string := reach_fix (List.length all_fns) entry_points.
 Definition locked_fns : list string :=
   filter (fun q => negb (str_in q unlocked_fns) && negb (String.eqb q "createStructDesc")) all_fns.
 (* U contains the entry points and is closed under the edges (so the iteration reached its fixed
